@@ -45,7 +45,8 @@ TRUSTED = [
     "CBO(surrogate_model='DUMMY').fit_surrogate as the loader of a surviving results.csv",
 ]
 ASSUMPTIONS = ["one process writes to log_dir", "log_dir is empty when the first search is created", "serial evaluator, RandomSearch"]
-RULE = ("quick: every crash point (+ a restart in every surviving directory) of a 2-call single-objective search (batch 2), of a 1-call and a 2-call two-objective search, of a single-objective search whose "
+RULE = ("(a later search may be driven only through ask / tell / dump_jobs_done_to_csv instead of search(), in the scenarios and in the restarts) "
+        "quick: every crash point (+ a restart in every surviving directory) of a 2-call single-objective search (batch 2), of a 1-call and a 2-call two-objective search, of a single-objective search whose "
         "first evaluations fail, and of 3 searches created within one second; thorough: batches 1-8, 1-3 calls, failures, 2-5 same-second searches. "
         "non-trivial = every scenario (each has >= 10 crash points)")
 
@@ -385,11 +386,13 @@ def check_in(case, scen, m, res, base):
             # directory; two crash points out of three it is KILLED again (second kill, at its operation `kill`); then a
             # further new search is created and run to its end in what is left
             def spec2(k):
+                # the new search is run by search() or (one crash point out of four) only through ask / tell / dump
                 return dict(restart=dict(kind="cbo" if k % 2 == 0 else "random", n=2 + k % 2, multi=multi0, base=9000,
-                                         kill=0 if k % 3 == 0 else 1 + (k * 7) % 9))
+                                         drive="manual" if k % 4 == 1 else "search", kill=0 if k % 3 == 0 else 1 + (k * 7) % 9))
 
             def spec3(k):
-                return dict(restart=dict(kind="random" if k % 2 == 0 else "cbo", n=2, multi=multi0, base=9500, kill=0))
+                return dict(restart=dict(kind="random" if k % 2 == 0 else "cbo", n=2, multi=multi0, base=9500, kill=0,
+                                         drive="manual" if k % 4 == 2 else "search"))
 
             def failed(k, r2, spec, before, stage):
                 detail = dict(k=k, stage=stage, restart=spec["restart"], before=before, after=r2["survivors"], actions=r2["actions"][-3:], err=r2["err"])
@@ -473,6 +476,8 @@ def gen(rng, tier):
         S(searches=[dict(workers=2, calls=[2, 2], multi=True)]),
         S(searches=[dict(workers=1, calls=[3, 1], fails=[True, True, False, False])]),
         S(searches=[dict(workers=1, calls=[2]), dict(workers=1, calls=[2]), dict(workers=1, calls=[2])], same_second=True),
+        # the later search is driven ONLY through the public ask / tell / dump_jobs_done_to_csv loop (no search() call)
+        S(searches=[dict(workers=1, calls=[2]), dict(workers=2, calls=[2, 1], drive="manual")], same_second=True),
         # a directory that earlier runs left behind: older results files (two of them under the names the rename tries
         # first within this second), a stale temporary file; two searches
         S(searches=[dict(workers=1, calls=[2]), dict(workers=2, calls=[1, 1], multi=True)], same_second=True,
@@ -495,6 +500,9 @@ def gen(rng, tier):
         more.append(S(searches=[dict(workers=1, calls=[2]) for _ in range(5)], same_second=True))
         more.append(S(searches=[dict(workers=2, calls=[2], multi=True), dict(workers=1, calls=[1, 1])], same_second=True))
         more.append(S(searches=[dict(workers=1, calls=[2]), dict(workers=1, calls=[2])]))   # two searches, real clock
+        more.append(S(searches=[dict(workers=2, calls=[2, 2], drive="manual", multi=True), dict(workers=1, calls=[2], multi=True)]))
+        more.append(S(searches=[dict(workers=1, calls=[2]), dict(workers=2, calls=[2, 1], drive="manual"), dict(workers=1, calls=[1])], same_second=True))
+        more.append(S(searches=[dict(workers=1, calls=[1, 1], drive="manual", fails=[True, False]), dict(workers=1, calls=[2], drive="manual")], same_second=True))
         for i in range(16):
             ns = rng.choice([1, 1, 1, 2, 3])
             searches = []
